@@ -28,11 +28,11 @@ def funcs : List (String × String) := [
   ("internal/endpoint/smtp/session.go:type limitedReader", "df2cdbda3935a056"),
   ("internal/endpoint/smtp/session.go:type statusWrapper", "6040ee8ad2dd602d"),
   ("internal/endpoint/smtp/smtp.go:Endpoint.NewSession", "1b9d54da04f9a04e"),
-  ("internal/msgpipeline/msgpipeline.go:MsgPipeline.Start", "2567ac34fcd9d9e9"),
+  ("internal/msgpipeline/msgpipeline.go:MsgPipeline.Start", "9b9e3864f9de0ef6"),
   ("internal/msgpipeline/msgpipeline.go:msgpipelineDelivery.Abort", "8d63ae83681b7520"),
-  ("internal/msgpipeline/msgpipeline.go:msgpipelineDelivery.AddRcpt", "4a921086f6367c2d"),
+  ("internal/msgpipeline/msgpipeline.go:msgpipelineDelivery.AddRcpt", "483b2d7e72200db8"),
   ("internal/msgpipeline/msgpipeline.go:msgpipelineDelivery.Body", "7dc627c0fe03620b"),
-  ("internal/msgpipeline/msgpipeline.go:msgpipelineDelivery.BodyNonAtomic", "9ef190be8c536e0f"),
+  ("internal/msgpipeline/msgpipeline.go:msgpipelineDelivery.BodyNonAtomic", "7b9e7db40807d5d7"),
   ("internal/msgpipeline/msgpipeline.go:msgpipelineDelivery.Commit", "c3bd950ad436c4d4"),
   ("internal/msgpipeline/msgpipeline.go:msgpipelineDelivery.close", "11e4dc975ce697c4"),
   ("internal/msgpipeline/msgpipeline.go:msgpipelineDelivery.getDelivery", "dc504feb895154cd"),
